@@ -3,6 +3,7 @@ package main
 // Evaluation of contract expressions to SMT terms.
 
 import (
+	"strconv"
 	"fmt"
 	"regexp"
 	"go/constant"
@@ -1030,6 +1031,25 @@ func (c *evalCtx) call(x *ECall) Term {
 			c.fail("unknown type %q", st.V)
 		}
 		return Term{fmt.Sprintf("(i-val %s)", a.S), w.sortOf(gt)}
+	case "f64":
+		// f64(literal): the float64 nearest to the literal, as an exact rational (what the Go
+		// constant denotes at run time)
+		var lit string
+		switch a := x.Args[0].(type) {
+		case *EFloat:
+			lit = a.V
+		case *EInt:
+			lit = a.V
+		default:
+			c.fail("f64(numeric literal)")
+		}
+		f, err := strconv.ParseFloat(lit, 64)
+		if err != nil {
+			c.fail("f64: %v", err)
+		}
+		r := new(big.Rat)
+		r.SetFloat64(f)
+		return Term{ratLit(r), sortReal}
 	case "hasPrefix", "hasSuffix":
 		// hasPrefix(s, p), hasSuffix(s, p) on strings
 		a, b := c.eval(x.Args[0]), c.eval(x.Args[1])
